@@ -191,8 +191,13 @@ def acceptor_case(seed, nops, maxinc, scripted=None):
             time.sleep(0.03)
             for k, c in conns.items():
                 c.poll(0.05)
-            inc = sorted(k for k, c in conns.items() if k not in done and c.accepted() and not c.eof)
-            back = sorted(k for k, c in conns.items() if k not in done and not c.accepted() and not c.eof)
+            for _ in range(40):         # (a waiting client with room left: give a busy machine up to two more seconds before calling it stuck)
+                inc = sorted(k for k, c in conns.items() if k not in done and c.accepted() and not c.eof)
+                back = sorted(k for k, c in conns.items() if k not in done and not c.accepted() and not c.eof)
+                if not (back and len(inc) < maxinc) or not d.alive():
+                    break
+                for k, c in conns.items():
+                    c.poll(0.05)
             impl.append((inc, back))
             if not d.alive():
                 break
